@@ -301,11 +301,17 @@ void save_svalue (svalue_t * v, char **buf) {
     }
 }
 
-static int restore_internal_size (char **str, int is_mapping, int depth) {
+/* 'nesting' is the level of the container whose elements are counted (the outermost one, counted by
+ * restore_size(), is level 1).  svalue_save_size() refuses to write anything deeper than
+ * MAX_SAVE_SVALUE_DEPTH, so deeper text is not a save file; following it anyway let a damaged file
+ * ("({({({..." without end) run the recursion out of C stack. */
+static int restore_internal_size (char **str, int is_mapping, int depth, int nesting) {
   register char *cp = *str;
   int size = 0;
   char c, delim, index = 0;
 
+  if (nesting > MAX_SAVE_SVALUE_DEPTH)
+    return 0;
   delim = is_mapping ? ':' : ',';
   while ((c = *cp++))
     {
@@ -329,7 +335,7 @@ static int restore_internal_size (char **str, int is_mapping, int depth) {
             if (*cp == '{')
               {
                 *str = ++cp;
-                if (!restore_internal_size (str, 0, save_svalue_depth++))
+                if (!restore_internal_size (str, 0, save_svalue_depth++, nesting + 1))
                   {
                     return 0;
                   }
@@ -337,7 +343,7 @@ static int restore_internal_size (char **str, int is_mapping, int depth) {
             else if (*cp == '[')
               {
                 *str = ++cp;
-                if (!restore_internal_size (str, 1, save_svalue_depth++))
+                if (!restore_internal_size (str, 1, save_svalue_depth++, nesting + 1))
                   {
                     return 0;
                   }
@@ -345,7 +351,7 @@ static int restore_internal_size (char **str, int is_mapping, int depth) {
             else if (*cp == '/')
               {
                 *str = ++cp;
-                if (!restore_internal_size (str, 0, save_svalue_depth++))
+                if (!restore_internal_size (str, 0, save_svalue_depth++, nesting + 1))
                   return 0;
               }
             else
@@ -490,19 +496,19 @@ static int restore_size (char **str, int is_mapping) {
                     if (*cp == '{')
                       {
                               *str = ++cp;
-                              if (!restore_internal_size (str, 0, save_svalue_depth++))
+                              if (!restore_internal_size (str, 0, save_svalue_depth++, 2))
                                 return -1;
                       }
                     else if (*cp == '[')
                       {
                               *str = ++cp;
-                              if (!restore_internal_size (str, 1, save_svalue_depth++))
+                              if (!restore_internal_size (str, 1, save_svalue_depth++, 2))
                                 return -1;
                       }
                     else if (*cp == '/')
                       {
                               *str = ++cp;
-                              if (!restore_internal_size (str, 0, save_svalue_depth++))
+                              if (!restore_internal_size (str, 0, save_svalue_depth++, 2))
                                 return -1;
                       }
                     else
